@@ -48,6 +48,10 @@ STATUSES = (0, 1, 3, 255, -9, -15)
 FOREIGN_PID = 7001          # a process that did not create the object
 ENV_PID = 7002              # identity of the environment vthread in (a2)
 EPS = 1e-9
+# join variants of the alphabet: event name -> timeout (a negative timeout is
+# an expired deadline: "returns within the timeout" means at once)
+JOINS = {'join': None, 'join0': 0, 'join05': 0.5, 'joinm1': -1,
+         'joinmq': -0.25}
 
 
 # ======================================================================
@@ -130,7 +134,8 @@ def enabled_events(w, ref):
     running = started and vp.state == 'running'
     ended = started and not running
     reaped = started and vp.state == 'reaped'
-    evs = ['start', 'is_alive', 'exitcode', 'join0', 'join05', 'close',
+    evs = ['start', 'is_alive', 'exitcode', 'join0', 'join05', 'joinm1',
+           'joinmq', 'close',
            'active_children', 'f-start', 'f-join', 'f-is_alive']
     if not started or ended:
         evs.append('join')           # would block while the child runs
@@ -245,8 +250,8 @@ def apply_event(w, proc, ref, ev):
             return ('the process is still in active_children() after a join '
                     'that observed its exit'), got
         return None, got
-    if ev in ('join', 'join0', 'join05'):
-        timeout = {'join': None, 'join0': 0, 'join05': 0.5}[ev]
+    if ev in JOINS:
+        timeout = JOINS[ev]
         t0 = w.now
         r = finish(_call(lambda: proc.join(timeout)))
         dt = w.now - t0
@@ -264,7 +269,7 @@ def apply_event(w, proc, ref, ev):
                 else 'the child has ended')), r[0]
         if r[0] != 'ok':
             return '%s raised %r' % (ev, r), r[0]
-        if timeout is not None and dt > timeout + EPS:
+        if timeout is not None and dt > max(timeout, 0) + EPS:
             return ('join(%r) advanced the clock by %.3f s' % (timeout, dt),
                     'late')
         if ended0 and not lost:
@@ -459,8 +464,16 @@ def run_conc(cfg, prefix):
                 p = vp()
                 return p is not None and p.state != 'running'
 
-            def parent():
-                for op in cfg['script']:
+            def runner(who, script):
+                def body():
+                    if who != 'parent':     # a second thread of the parent
+                        sched.point('obs:wait-start', None,
+                                    lambda: 'pid' in child)
+                    return run_script(who, script)
+                return body
+
+            def run_script(who, script):
+                for op in script:
                     e0, t0 = ended(), w.now
                     s0 = vp().status if e0 else None
                     if op == 'start':
@@ -472,6 +485,8 @@ def run_conc(cfg, prefix):
                                 vp().handlers[TERM] = 'deferred'
                     elif op == 'exitcode':
                         r = _call(lambda: proc.exitcode)
+                    elif op == 'returncode':
+                        r = _call(lambda: proc._popen.returncode)
                     elif op == 'is_alive':
                         r = _call(proc.is_alive)
                     elif op == 'terminate':
@@ -481,7 +496,8 @@ def run_conc(cfg, prefix):
                     else:
                         r = _call(lambda: proc.join(op[1]))
                     log.append(dict(
-                        op=op, r=r, ended_before=e0, status_before=s0,
+                        who=who, op=op, r=r, ended_before=e0,
+                        status_before=s0,
                         ended_after=ended(),
                         status_after=vp().status if ended() else None,
                         dt=round(w.now - t0, 6),
@@ -500,22 +516,33 @@ def run_conc(cfg, prefix):
                     vos.v_sleep(cfg['env'][1])
                     vos.proc_exit(child['pid'], cfg['env'][2])
                 return 'ok'
-            pt = sched.spawn(parent, 'parent', pid=vos.MAIN_PID)
+            pts = [sched.spawn(runner('parent', cfg['script']), 'parent',
+                               pid=vos.MAIN_PID)]
+            if cfg.get('observer'):
+                pts.append(sched.spawn(runner('observer', cfg['observer']),
+                                       'observer', pid=vos.MAIN_PID))
             sched.spawn(env, 'env', pid=ENV_PID, daemon=True)
             sched.run()
             status = sched.status
-            if pt.exc is not None:
-                viol = 'harness/parent raised %r' % (pt.exc,)
+            excs = [t.exc for t in pts if t.exc is not None]
+            if excs:
+                viol = 'harness/parent raised %r' % (excs,)
             elif status != 'done':
                 viol = ('the parent did not finish (%s) after %r: %r' % (
                     status, [e['op'] for e in log], sched.describe()))
+            elif cfg.get('observer'):
+                sched.linepoints = False
+                last = _call(lambda: proc.exitcode) if ended() else None
+                viol = judge_threads(log, vp().status if ended() else None,
+                                     last)
             else:
                 viol = judge_conc(log)
         finally:
             sched.linepoints = False
             FAULT.reset()
             vctx.reset_billiard_globals()
-    outcome = tuple((str(e['op']), e['r'][0] if e['r'][0] != 'ok'
+    outcome = tuple((e['who'][0] + ':' + str(e['op']),
+                     e['r'][0] if e['r'][0] != 'ok'
                      else repr(e['r'][1]), e['ended_before'], e['ended_after'])
                     for e in log)
     return explore.Execution(choices.decisions, outcome=outcome,
@@ -550,7 +577,7 @@ def judge_conc(log):
                 return 'still in active_children() after a successful join'
         elif not isinstance(op, str):
             timeout = op[1]
-            if timeout is not None and e['dt'] > timeout + EPS:
+            if timeout is not None and e['dt'] > max(timeout, 0) + EPS:
                 return ('join(%r) took %.3f virtual seconds'
                         % (timeout, e['dt']))
             if timeout is None or e['ended_before']:
@@ -563,6 +590,38 @@ def judge_conc(log):
     return None
 
 
+def judge_threads(log, final, last):
+    """Two threads of the parent use the same process object.  The statement
+    does not speak about threads, and on the pinned tree the thread that loses
+    the waitpid race legitimately sees "no status yet" (ECHILD -> None) for a
+    moment.  What must hold at every instant: a reported status is the child's
+    real one, never an intermediate value, and liveness is only denied to a
+    child that has ended."""
+    for e in log:
+        op, r = e['op'], e['r']
+        name = op if isinstance(op, str) else 'join(%r)' % (op[1],)
+        if r[0] != 'ok':
+            return '%s raised %r (thread %s)' % (name, r, e['who'])
+        got = r[1]
+        if op in ('exitcode', 'returncode') and got is not None:
+            if not e['ended_after']:
+                return ('%s is %r but the child has not ended'
+                        % (op, got))
+            if got != decoded(e['status_after']):
+                return ('thread %s read %s == %r while another thread was '
+                        'collecting the status; the child ended with status '
+                        '%r' % (e['who'], op, got, e['status_after']))
+        if op == 'is_alive' and got is not True and not e['ended_after']:
+            return 'is_alive() is %r but the child has not ended' % (got,)
+        if not isinstance(op, str) and op[1] is not None and \
+                e['dt'] > max(op[1], 0) + EPS:
+            return 'join(%r) took %.3f virtual seconds' % (op[1], e['dt'])
+    if final is not None and last != ('ok', decoded(final)):
+        return ('after both threads finished exitcode is %r, the child ended '
+                'with status %r' % (last, final))
+    return None
+
+
 def conc_configs(tier):
     T = tier == 'thorough'
     J, J5, J2 = ('join', None), ('join', 0.5), ('join', 2.0)
@@ -572,6 +631,7 @@ def conc_configs(tier):
         ['start', 'is_alive', 'exitcode', J5, J5, J, 'is_alive'],
         ['start', 'exitcode', J2, 'exitcode', 'active_children', J],
         ['start', ('join', 0), 'is_alive', J, 'active_children', 'exitcode'],
+        ['start', ('join', -1), 'exitcode', ('join', -0.25), J, 'exitcode'],
     ]
     tscripts = [
         ['start', 'terminate', J, 'exitcode', 'is_alive'],
@@ -601,6 +661,17 @@ def conc_configs(tier):
                          lines=True), lb))
         out.append((dict(script=sc, env=('exit', 0.0, 1), eintr=0,
                          lines=True), lb))
+    # a second thread of the parent reads the status while the first collects it
+    obs = [['exitcode', 'returncode', 'is_alive', 'exitcode'],
+           ['is_alive', 'exitcode']]
+    mains = [['start', J, 'exitcode'],
+             ['start', 'is_alive', J5, 'exitcode', J],
+             ['start', 'exitcode', ('join', 0), 'is_alive', J]]
+    for sc in mains:
+        for ob in obs:
+            for s in ((-9, 3, 0) if not T else STATUSES):
+                out.append((dict(script=sc, observer=ob, env=('exit', 0.0, s),
+                                 eintr=0, lines=True), lb))
     for sc in tscripts:
         for d in (0.0, 0.05, 0.3):
             out.append((dict(script=sc, env=('on-term', d), eintr=0), bound))
@@ -621,7 +692,7 @@ def explore_conc(arg):
 # ======================================================================
 # (b) the complete status table
 # ======================================================================
-PATHS = ('exitcode', 'is_alive', 'join', 'join0', 'join05',
+PATHS = ('exitcode', 'is_alive', 'join', 'join0', 'join05', 'joinm1',
          'active_children')
 
 
@@ -650,7 +721,7 @@ def status_table(arg):
                         first = _call(
                             lambda: proc in bprocess.active_children())
                     else:
-                        t = {'join': None, 'join0': 0, 'join05': 0.5}[path]
+                        t = JOINS[path]
                         first = _call(lambda: proc.join(t))
                     got = _call(lambda: (proc.exitcode, proc.exitcode,
                                          proc.is_alive()))
@@ -1174,7 +1245,7 @@ def main(tier, seed, only=None):
                  max_depth=r['max_depth'],
                  fixpoint_at_depth=r['fixpoint'],
                  events=['start', 'is_alive', 'exitcode', 'join', 'join0',
-                         'join05', 'terminate', 'terminate-late', 'close',
+                         'join05', 'joinm1', 'joinmq', 'terminate', 'terminate-late', 'close',
                          'active_children', 'f-start', 'f-join', 'f-is_alive',
                          'term-lands', 'eintr', 'echild'] +
                  ['exit:%d' % s for s in STATUSES])
